@@ -25,8 +25,13 @@ def configs(tier):
             for sub in itertools.combinations(KEYS, r):
                 out.append(dict(part="batch", kind=kind, batched=list(sub), B=B))
         out.append(dict(part="hetero", kind=kind, B=B))
+        if kind != "statio":      # the ignored placeholder of a heterogeneous parameter is an INTEGER: the user function's (real) value is what the equation sees
+            out.append(dict(part="hetero", kind=kind, B=B, intph=True))
         # one loss object evaluated on batches that batch DIFFERENT subsets of the keys, one after the other, in one process
         out.append(dict(part="sequence", kind=kind, B=B))
+    # the normalisation term of a time-dependent loss: time stamp i is integrated with row i of the batched parameters
+    for sub in (["theta"], ["theta", "kappa"]):
+        out.append(dict(part="norm", kind="nonstatio", batched=sub, B=B))
     for kind in ("ode", "statio", "nonstatio"):
         for sub in (["kappa"], ["theta", "kappa"]):
             out.append(dict(part="system", kind=kind, batched=sub, B=B))
@@ -124,9 +129,47 @@ def run_sequence(cfg, R):
     R.check(name, tr, goals, twin_fn=twins, key_fn=lambda p_, g: f"sequence:{kind}")
 
 
+def run_norm(cfg, R):
+    import jinns
+    from jinns.parameters import Params
+    from jinns.loss import LossPDENonStatio, LossWeightsPDENonStatio
+    from jinns.data._Batchs import PDENonStatioBatch
+    B, batched = cfg["B"], cfg["batched"]
+    ns = 3 if B == 2 else 2                      # number of normalisation samples != batch size
+    ot_theta = lambda i, o, p: o * p.eq_params["theta"]
+    u = mk_pinn(2, 1, "nonstatio_PDE", deg=1, H=1, ot=ot_theta)
+    params = Params(nn_params=u.init_params(), eq_params={"theta": jnp.array(0.7), "kappa": jnp.array(1.3), "mu": jnp.array(0.4)})
+    loss = LossPDENonStatio(u=u, dynamic_loss=None, norm_samples=jnp.arange(1, ns + 1).reshape(ns, 1) * 0.3, norm_int_length=jnp.array(1.5),
+                            loss_weights=LossWeightsPDENonStatio(norm_loss=jnp.array(0.75)), params=params)
+    pb = {k: (jnp.arange(1, B + 1).reshape(B, 1) * 0.3 + 0.1 * i) for i, k in enumerate(KEYS) if k in batched}
+    batch = PDENonStatioBatch(times_x_inside_batch=jnp.arange(1, 2 * B + 1).reshape(B, 2) * 0.2, times_x_border_batch=None, param_batch_dict=pb)
+    name = f"norm/nonstatio/{'+'.join(batched)}"
+    R.note(functions=["jinns.loss.LossPDENonStatio.evaluate (normalisation block with a parameter batch)", "jinns.loss._loss_utils.normalization_loss_apply[PINN]"])
+    f = lambda loss, params, batch: loss.evaluate(params, batch)
+    tr = R.trace(name, f, (loss, params, batch), key="norm:nonstatio:raises")
+    if tr is None: return
+    def oracle(A, shift=0):
+        loss_, p, b_ = A
+        w = loss_.loss_weights.norm_loss[()]; L_ = loss_.norm_int_length[()]; S = loss_.norm_samples
+        devs = []
+        for i in range(B):
+            th = b_.param_batch_dict["theta"][(i + shift) % B, 0]
+            us = [mul(D(p.nn_params, [b_.times_x_inside_batch[i, 0], S[k, 0]]), th) for k in range(ns)]
+            devs.append(sq(sub(mul(L_, mean(us)), const(1, "Real"))))
+        return mul(w, mean(devs))
+    def goals(A, O):
+        total, terms = O
+        return [("norm_loss: time stamp i is integrated with row i of every batched parameter", eq(terms["norm_loss"][()], oracle(A)))]
+    def twins(A, O):
+        total, terms = O
+        return [("norm_loss == oracle using row i+1 for time stamp i", eq(terms["norm_loss"][()], oracle(A, shift=1)))]
+    R.check(name, tr, goals, twin_fn=twins, key_fn=lambda prog, g: "norm:nonstatio:" + g.split(":")[0])
+
+
 def run(cfg, R):
     part, kind, B = cfg["part"], cfg["kind"], cfg["B"]
     if part == "system": return run_system(cfg, R)
+    if part == "norm": return run_norm(cfg, R)
     if part == "sequence": return run_sequence(cfg, R)
     half, quarter = const(Fraction(1, 2), "Real"), const(Fraction(1, 4), "Real")
     if part == "batch":
@@ -145,8 +188,10 @@ def run(cfg, R):
         else:
             het = {"theta": lambda t, x, u, p: p.eq_params["theta"] * psi(1)(0.5 * t[0] + 2.0 * x[0] + p.eq_params["kappa"]), "kappa": lambda t, x, u, p: psi(2)(p.eq_params["kappa"] + 0.25 * t[0] + 3.0 * x[0] + p.eq_params["theta"])}
         u, params, loss, batch = _mk(kind, B, hetero=het)
+        if cfg.get("intph"):
+            params = eqx.tree_at(lambda p: p.eq_params["kappa"], params, jnp.array(1, dtype=jnp.int32))
         hetero = True
-    name = f"{part}/{kind}/{'+'.join(batched) if batched else 'none'}"
+    name = f"{part}/{kind}/{'+'.join(batched) if batched else 'none'}" + ("/int-placeholder" if cfg.get("intph") else "")
     key = f"{part}:{kind}"
     R.note(functions=["jinns.parameters._params._update_eq_params_dict", "_get_vmap_in_axes_params", "jinns.loss._DynamicLossAbstract._decorator_heteregeneous_params",
                       "DynamicLoss._eval_heterogeneous_parameters", "jinns.loss.%s.evaluate" % {"ode": "LossODE", "statio": "LossPDEStatio", "nonstatio": "LossPDENonStatio"}[kind],
